@@ -210,3 +210,32 @@ func HTML(r *sim.Rand) []byte {
 	b.WriteString("</body></html>")
 	return []byte(b.String())
 }
+
+// EPUBFromChapters builds an EPUB 3 package whose spine lists the given chapter
+// documents in order (file names do not follow spine order).
+func EPUBFromChapters(chapters [][]byte, r *sim.Rand) *Package {
+	p := &Package{}
+	p.Members = append(p.Members, Member{Name: "mimetype", Data: []byte("application/epub+zip"), Store: true})
+	p.Add("META-INF/container.xml", `<?xml version="1.0"?><container version="1.0" xmlns="urn:oasis:names:tc:opendocument:xmlns:container"><rootfiles><rootfile full-path="OEBPS/content.opf" media-type="application/oebps-package+xml"/></rootfiles></container>`)
+	names := make([]string, len(chapters))
+	perm := r.Perm(len(chapters))
+	for i := range chapters {
+		names[i] = fmt.Sprintf("text/part%03d.xhtml", perm[i])
+	}
+	var opf strings.Builder
+	opf.WriteString(`<?xml version="1.0" encoding="UTF-8"?><package xmlns="http://www.idpf.org/2007/opf" version="3.0" unique-identifier="uid"><metadata xmlns:dc="http://purl.org/dc/elements/1.1/"><dc:identifier id="uid">urn:uuid:c19</dc:identifier><dc:title>C19</dc:title><dc:language>en</dc:language></metadata><manifest>`)
+	for i := range chapters {
+		fmt.Fprintf(&opf, `<item id="c%d" href="%s" media-type="application/xhtml+xml"/>`, i, names[i])
+	}
+	opf.WriteString(`<item id="nav" href="nav.xhtml" media-type="application/xhtml+xml" properties="nav"/></manifest><spine>`)
+	for i := range chapters {
+		fmt.Fprintf(&opf, `<itemref idref="c%d"/>`, i)
+	}
+	opf.WriteString(`</spine></package>`)
+	p.Add("OEBPS/content.opf", opf.String())
+	for i, c := range chapters {
+		p.Members = append(p.Members, Member{Name: "OEBPS/" + names[i], Data: c})
+	}
+	p.Add("OEBPS/nav.xhtml", `<?xml version="1.0" encoding="UTF-8"?><html xmlns="http://www.w3.org/1999/xhtml" xmlns:epub="http://www.idpf.org/2007/ops"><head><title>Nav</title></head><body><nav epub:type="toc"><ol><li><a href="`+names[0]+`">Start</a></li></ol></nav></body></html>`)
+	return p
+}
